@@ -125,7 +125,7 @@ theorem no_array_mode (i : Info) (o : Opts) (p : Bytes) (h1 : i.hasArg = true) (
 
 /-- **Args decodes position by position with exact length; nil slots are skipped** -/
 theorem args_exact_length (targets : List Bool) (data : Bytes) (elts : List Bytes)
-    (h : Jrpc.Json.elements data = some elts) :
+    (h : argsElements data = some elts) :
     (elts.length ≠ targets.length → argsUnmarshal targets data = .wrongLength) ∧
     (elts.length = targets.length → ∃ ps, argsUnmarshal targets data = .decodeEach ps ∧
       ∀ p ∈ ps, targets.getD p.1 false = true ∧ elts[p.1]? = some p.2) := by
@@ -157,8 +157,30 @@ theorem args_exact_length (targets : List Bool) (data : Bytes) (elts : List Byte
       simpa using hk1
     subst hki; exact hk.2
 
-theorem args_not_array (targets : List Bool) (data : Bytes) (h : Jrpc.Json.elements data = none) :
+theorem args_not_array (targets : List Bool) (data : Bytes) (h : argsElements data = none) :
     argsUnmarshal targets data = .notArray := by unfold argsUnmarshal; rw [h]
+
+/-- `null` counts as an array without elements (encoding/json leaves the element slice nil): it
+is accepted by an `Args` without slots and by no other -/
+theorem args_null (targets : List Bool) (data : Bytes) (h : isNullText data = true) :
+    argsUnmarshal targets data = if targets.length = 0 then .decodeEach [] else .wrongLength := by
+  unfold argsUnmarshal argsElements
+  simp only [h, if_true]
+  cases targets with
+  | nil => simp
+  | cons t ts => simp
+
+/-- an `Args` without slots accepts nothing but an empty array (or `null`): any array with an
+element, and anything that is not an array, is refused -/
+theorem args_empty_exact (data : Bytes) :
+    (∃ ps, argsUnmarshal [] data = .decodeEach ps) ↔ argsElements data = some [] := by
+  unfold argsUnmarshal
+  cases h : argsElements data with
+  | none => simp
+  | some elts =>
+    cases elts with
+    | nil => simp
+    | cons e es => simp
 
 /-- **Obj decodes only keys present in the map and touches no other target** -/
 theorem obj_only_present_keys (keys : List Bytes) (fields : List (Bytes × Bytes)) :
